@@ -54,7 +54,11 @@ def _overlap(lo1, hi1, lo2, hi2):
 class M(Model):
     ENV = "BinPack"
     EPISODE_CAP = 80
-    DETERMINISTIC_CONFIGS = ("toy", "csv")
+
+    @property
+    def DETERMINISTIC_CONFIGS(self):
+        """Toy and CSV generators ignore the key: whatever entry this bundle is, it is deterministic."""
+        return (self.b.entry,) if self.gen_kind in ("ToyGenerator", "CSVGenerator") else ()
 
     def __init__(self, b):
         super().__init__(b)
